@@ -412,6 +412,8 @@ fn exec_child(op: &str, args: &[Sexp]) -> Ans {
 			if !write_domain(&b) { return Ans::out_of_domain(); }
 			match guarded(|| read_class_bytes(&b).map(|_| unit())) {
 				Outc::Ok(_) => {}
+				// a reader that panics is itself the violation, never a reason to leave the domain (audit rule (ii), H3)
+				Outc::Panic(p) => return Ans::fail(&p),
 				_ => return Ans::out_of_domain(),
 			}
 			let r = guarded(|| {
